@@ -230,8 +230,16 @@ End Linux.
 Record opts := {
   o_drag : bool; o_trace : bool; o_zmodem : bool; o_osc52 : bool;
   o_cmd : list N;            (* SetDragFileUploadCommand; [] = not set *)
-  o_cmd_not_trz : bool       (* uploadCommandIsNotTrz *)
+  o_cmd_not_trz : bool;      (* uploadCommandIsNotTrz *)
+  o_fixed : bool             (* code version, not a user option: true = the current source, where every
+                                return of handleTrzsz closes a stop prompt that is still open (the second
+                                deferred function, pinned by Gen/Skel_filter.v); false = before that fix *)
 }.
+
+(* filter.promptPipe: nil / the prompt is waiting for a key / its pipe has been closed by
+   handleTrzsz and the prompt goroutine is about to store nil (it needs no key for that) *)
+Inductive pstate := PNone | POpen | PClosing.
+Definition p_set (p : pstate) : bool := match p with PNone => false | _ => true end.
 
 (* one uploadDragFiles goroutine: sleeping 300 ms; sent ctrl-C, sleeping 200 ms; sent the command, sleeping 3 s *)
 Inductive dphase := DWait | DInterrupt | DCmd.
@@ -274,7 +282,7 @@ Section Filter.
   Record state := {
     transfer : bool;                 (* filter.transfer != nil *)
     zmodem : option zstate;          (* filter.zmodem *)
-    prompt : bool;                   (* filter.promptPipe != nil *)
+    prompt : pstate;                 (* filter.promptPipe *)
     prompts : bool;                  (* filter.trigger.version > 1.1.3 *)
     trace_on : bool;                 (* logger has an open file *)
     interrupting : bool;
@@ -292,7 +300,7 @@ Section Filter.
   }.
 
   Definition init (d : dstate) : state :=
-    {| transfer := false; zmodem := None; prompt := false; prompts := false; trace_on := false;
+    {| transfer := false; zmodem := None; prompt := PNone; prompts := false; trace_on := false;
        interrupting := false; skip_cmd := false; cur_cmd := None; osc := None; detect_on := false;
        dragging := false; drag_has_dir := false; drag_files := None; held := None; det := d;
        drag_procs := []; handlers := [] |}.
@@ -419,9 +427,9 @@ Section Filter.
 
   (* ---- sendInput, one Read (filter.go:710-774) ---- *)
   Definition in_step (s : state) (buf : list N) : state * list obs :=
-    if prompt s then (s, []) else                                (* keys go to the stop prompt *)
+    if p_set (prompt s) then (s, []) else                        (* keys go to the stop prompt *)
     if transfer s then
-      ((if is_stop_key buf && prompts s then set_prompt true s else s), [])
+      ((if is_stop_key buf && prompts s then set_prompt POpen s else s), [])
     else
     let s := if o_zmodem o then
                match zmodem s with
@@ -478,6 +486,9 @@ Section Filter.
           Every way out runs the deferred CompareAndSwap(transfer, nil): the session is
           cleared exactly when this goroutine owns it. ---- *)
   Definition handler_exit (s : state) (i : nat) (ph : hphase) : state :=
+    (* deferred, runs first: close the pipe of a stop prompt that is still open *)
+    let s := if o_fixed o then match prompt s with POpen => set_prompt PClosing s | _ => s end else s in
+    (* deferred: CompareAndSwap(transfer, nil) *)
     let s := set_handlers (remove_nth i (handlers s)) s in
     match ph with HOwning => set_transfer false s | HChoosing => s end.
 
@@ -506,7 +517,7 @@ Section Filter.
   | EvHoldTimer                       (* 200 ms after a held-back chunk *)
   | EvDrag (i : nat)                  (* uploadDragFiles goroutine i moves on *)
   | EvHandler (i : nat) (a : haction) (* handleTrzsz goroutine i moves on *)
-  | EvPromptEnd                       (* the stop prompt is answered / closed *)
+  | EvPromptEnd                       (* the prompt goroutine ends: answered by the user, or its pipe was closed *)
   | EvZmodem (z : zstate).            (* the zmodem helper process / its timers change its state *)
 
   Definition step (s : state) (e : event) : state * list obs :=
@@ -517,7 +528,7 @@ Section Filter.
     | EvHoldTimer => hold_timer s
     | EvDrag i => drag_step s i
     | EvHandler i a => handler_step s i a
-    | EvPromptEnd => (set_prompt false s, [])
+    | EvPromptEnd => (set_prompt PNone s, [])
     | EvZmodem z => (match zmodem s with Some _ => set_zmodem (Some z) s | None => s end, [])
     end.
 
@@ -550,7 +561,7 @@ Section Filter.
   (* "idle": nothing owns the streams and no helper goroutine is alive *)
   Definition idle (s : state) : bool :=
     negb (transfer s) && (match zmodem s with None => true | Some _ => false end) &&
-    negb (prompt s) && negb (interrupting s) && negb (skip_cmd s) &&
+    negb (p_set (prompt s)) && negb (interrupting s) && negb (skip_cmd s) &&
     (match held s with None => true | Some _ => false end) &&
     (match drag_procs s with [] => true | _ => false end) &&
     (match handlers s with [] => true | _ => false end).
